@@ -182,6 +182,10 @@ func (c *Catalog) TLA() string {
 		}
 		b.WriteString(o.TLA())
 	}
+	if len(c.Fns) == 0 {
+		b.WriteString(">>, fns |-> <<>>]")
+		return b.String()
+	}
 	b.WriteString(">>, fns |-> [")
 	for i, id := range c.FnIDs() {
 		f := c.Fns[id]
